@@ -1,4 +1,5 @@
 import EvyV.Model.Interp
+import EvyV.Model.Static
 import EvyV.Driver.FloatOps
 import EvyV.Driver.Util
 /-
@@ -200,6 +201,9 @@ def handle (line : String) : String :=
   | [_, optS, progS, evS, inS, orS] =>
     let opts := words optS
     let prog := match parseAll progS with | [p] => toProgram p | _ => { funcs := [], handlers := [], stmts := [] }
+    if optVal opts "terms" == some "1" then
+      "TERMS " ++ String.ofList ((flagsProgram prog).map (fun b => if b then '1' else '0'))
+    else
     let table := parseOracle orS
     let ext := mkExt table
     let fuel := ((optVal opts "fuel").bind String.toNat?).getD 200000
